@@ -491,6 +491,14 @@ func exec(line string) zv.Out {
 		return execRList(f)
 	case "rlp":
 		return execRLP(f)
+	case "crlm":
+		return execCRLM(f)
+	case "csrm":
+		return execCSRM(f)
+	case "csrp":
+		return execCSRP(f)
+	case "xsch":
+		return execXSch(f)
 	}
 	return zv.Out{Viol: "bad line"}
 }
@@ -565,6 +573,8 @@ func gen(g *zv.Gen) {
 		g.Emitf("c05 num %s", v)
 	}
 	genRList(g)
+	genCSRM(g)
+	genCRLM(g)
 }
 
 var _ = hex.EncodeToString
